@@ -88,9 +88,10 @@ Definition documented_fixed : list (string * list (string * const)) :=
    ("MLPMMD", [("gemini", CNone)]); ("MLPWasserstein", [("gemini", CNone)]);
    ("SparseLinearMMD", [("gemini", CNone)]); ("SparseLinearMI", [("gemini", CStr "mi"); ("dynamic", CBool false)]);
    ("SparseMLPMMD", [("gemini", CNone)]);
-   ("CategoricalMMD", [("gemini", CNone)]); ("CategoricalWasserstein", [("gemini", CNone)]);
+   ("CategoricalMMD", [("gemini", CNone); ("batch_size", CNone)]);
+   ("CategoricalWasserstein", [("gemini", CNone); ("batch_size", CNone)]);
    ("LinearModel", []); ("MLPModel", []); ("SparseLinearModel", []); ("SparseMLPModel", []);
-   ("CategoricalModel", []); ("Douglas", []); ("Kauri", []);
+   ("CategoricalModel", [("batch_size", CNone)]); ("Douglas", []); ("Kauri", []);
    ("MMDGEMINI", []); ("WassersteinGEMINI", []); ("KLGEMINI", []); ("TVGEMINI", []);
    ("HellingerGEMINI", []); ("ChiSquareGEMINI", []); ("MI", [("ovo", CBool false)])].
 (* documented defaults of the affinity-related parameters *)
@@ -114,15 +115,17 @@ Ltac split_in H := simpl In in H; repeat (destruct H as [H | H]; [ | ]); try con
 
 (* every constructor argument ends up, unmodified, in the attribute of the same name; all other
    attributes the constructor chain sets hold literal constants *)
-Lemma ctor_stores_own_names : forall c, In c classes -> forall rho : string -> value,
-  exists attrs, construct classes (c_name c) [] (kw_of classes (c_name c) rho) = Some attrs /\
-    (forall p, In p (param_names classes (c_name c)) -> lookup p attrs = Some (rho p)) /\
-    Forall (fun kv => In (fst kv) (param_names classes (c_name c)) \/ exists k, snd kv = VC k) attrs.
+Lemma ctor_stores_own_names : forall cls, In cls (map c_name classes) -> forall rho : string -> value,
+  exists attrs, construct classes cls [] (kw_of classes cls rho) = Some attrs /\
+    (forall p, In p (param_names classes cls) -> lookup p attrs = Some (rho p)) /\
+    Forall (fun kv => In (fst kv) (param_names classes cls) \/ exists k, snd kv = VC k) attrs.
 Proof.
-  intros c Hin rho. unfold classes in Hin. split_in Hin; subst c;
+  intros cls Hin rho. vm_compute in Hin. split_in Hin; subst cls;
     (eexists; split; [ vm_compute; reflexivity | split;
       [ intros p Hp; vm_compute in Hp; repeat (destruct Hp as [Hp | Hp]; [ subst p; reflexivity | ]); contradiction
-      | repeat constructor; first [ left; vm_compute; tauto | right; eexists; reflexivity ] ] ]).
+      | repeat (apply Forall_cons;
+                [ first [ left; vm_compute; solve [ repeat (first [ left; reflexivity | right ]) ]
+                        | right; eexists; reflexivity ] | ]); apply Forall_nil ] ]).
 Qed.
 
 Lemma ctor_fixed_arguments : forall cls fx, In (cls, fx) documented_fixed -> forall rho : string -> value,
@@ -236,3 +239,135 @@ Proof.
   1-3: unfold documented in Hin; split_in Hin; inversion Hin; subst; vm_compute; reflexivity.
   rewrite (generic_resolves cls Hin rho). apply model_resolve_spec.
 Qed.
+
+(* the affinity each documented estimator trains and scores with *)
+Lemma training_affinity_table : forall cls d, In (cls, d) documented -> forall (rho : string -> value) has_y,
+  training_affinity classes gemini_registry (full_call cls rho) has_y = expected_affinity d rho has_y.
+Proof.
+  intros cls d Hin rho has_y.
+  assert (Hg := get_gemini_table cls d Hin rho).
+  assert (Hown : method_owner classes cls "get_gemini" <> None /\
+                 estimator_attrs classes (full_call cls rho) <> None).
+  { unfold documented in Hin. split_in Hin; inversion Hin; subst; split; vm_compute; discriminate. }
+  destruct Hown as [Hown Hat].
+  unfold training_affinity. unfold resolve_gemini, estimator_gemini in Hg.
+  destruct (estimator_attrs classes (full_call cls rho)) as [attrs |]; [ | contradiction ].
+  cbn [obind] in Hg |- *. cbn [e_class full_call] in Hg |- *.
+  destruct (method_owner classes cls "get_gemini") as [o |]; [ | contradiction ].
+  destruct (get_gemini classes gemini_registry cls attrs) as [g |]; cbn [option_map obind] in Hg |- *.
+  - destruct d; cbn [expected expected_affinity] in Hg |- *.
+    1-3: injection Hg as Hg; rewrite Hg; reflexivity.
+    rewrite <- Hg. destruct (describe classes g) as [v | b]; reflexivity.
+  - destruct d; cbn [expected expected_affinity] in Hg |- *; try discriminate Hg. rewrite <- Hg. reflexivity.
+Qed.
+
+Lemma kauri_training_affinity : forall (rho : string -> value) has_y,
+  training_affinity classes gemini_registry (full_call "Kauri" rho) has_y = Some (Some (fst (kauri_dispatch (rho "kernel") has_y))).
+Proof. intros rho has_y. vm_compute. reflexivity. Qed.
+
+(* ------------------------------------------------------------------ affinity dispatch *)
+Lemma affinity_dispatch_spec : forall (s : affinity_spec) (has_y : bool),
+  (forall f, a_fn s = VCallable f -> affinity_dispatch s has_y = CallUser f) /\
+  (a_fn s = VC (CStr "precomputed") ->
+     affinity_dispatch s has_y = if has_y then UseGiven else ErrorMissing) /\
+  (forall name, a_fn s = VC (CStr name) -> name <> "precomputed" ->
+     affinity_dispatch s has_y = Pairwise (a_kind s) (VC (CStr name)) (params_of (a_params s))) /\
+  params_of (VC CNone) = PEmpty /\ (forall d, params_of (VDict d) = PGiven (VDict d)) /\
+  (affinity_warns s = true <-> (exists f, a_fn s = VCallable f) /\ a_params s <> VC CNone).
+Proof.
+  intros [k fn ps] has_y. cbn [a_fn a_kind a_params].
+  split; [ | split; [ | split; [ | split; [ | split ] ] ] ].
+  - intros f ->. reflexivity.
+  - intros ->. reflexivity.
+  - intros name -> Hne. unfold affinity_dispatch. cbn [a_fn a_kind a_params is_precomputed].
+    destruct (String.eqb_spec name "precomputed") as [Heq | _]; [ contradiction | reflexivity ].
+  - reflexivity.
+  - intro d. reflexivity.
+  - unfold affinity_warns; cbn [a_fn a_params]. split.
+    + intro H. destruct fn as [c | f | d | o]; try discriminate H. split; [ exists f; reflexivity | ].
+      destruct ps as [[| b | x | x] | f' | d | o]; try discriminate H; discriminate.
+    + intros [[f Hf] Hp]. subst fn.
+      destruct ps as [[| b | x | x] | f' | d | o]; try reflexivity. contradiction.
+Qed.
+
+Lemma kernelrim_dispatch_spec : forall bk bkp,
+  (forall f, bk = VCallable f -> kernelrim_dispatch bk bkp = CallUser f) /\
+  (forall name, bk = VC (CStr name) -> kernelrim_dispatch bk bkp = Pairwise PKernels (VC (CStr name)) (params_of bkp)).
+Proof. intros bk bkp. split; [ intros f -> | intros name -> ]; reflexivity. Qed.
+
+Lemma kauri_dispatch_spec : forall kernel has_y,
+  (kernel = VC (CStr "precomputed") -> kauri_dispatch kernel true = (UseGiven, false)) /\
+  (forall name, kernel = VC (CStr name) -> name <> "precomputed" ->
+     kauri_dispatch kernel has_y = (Pairwise PKernels (VC (CStr name)) PEmpty, false)).
+Proof.
+  intros kernel has_y. split.
+  - intros ->. reflexivity.
+  - intros name -> Hne. unfold kauri_dispatch. cbn [is_precomputed].
+    destruct (String.eqb_spec name "precomputed") as [Heq | _]; [ contradiction | reflexivity ].
+Qed.
+
+(* the property asks: a missing matrix is an error.  Kauri as it is: a warning and the linear kernel *)
+Lemma kauri_missing_matrix_refuted :
+  exists kernel, is_precomputed kernel = true /\ fst (kauri_dispatch kernel false) <> ErrorMissing /\
+    kauri_dispatch kernel false = (Pairwise PKernels (VC (CStr "linear")) PEmpty, true).
+Proof. exists (VC (CStr "precomputed")). repeat split. discriminate. Qed.
+
+(* ------------------------------------------------------------------ precomputed = named *)
+Section Congruence.
+Context {T St : Type}.
+
+Lemma mat_tab_ext : forall n (A B : nat -> nat -> T),
+  (forall i j, i < n -> j < n -> A i j = B i j) -> mat_tab n A = mat_tab n B.
+Proof.
+  intros n A B H. unfold mat_tab. apply map_ext_in. intros i Hi. apply in_seq in Hi.
+  apply map_ext_in. intros j Hj. apply in_seq in Hj. apply H; lia.
+Qed.
+
+(* training sees the affinity only through its entries: equal entries, equal histories *)
+Lemma history_congruence : forall n (step : list (list T) -> nat -> St -> St) (A B : nat -> nat -> T) t steps s,
+  (forall i j, i < n -> j < n -> A i j = B i j) ->
+  history step (mat_tab n A) t steps s = history step (mat_tab n B) t steps s.
+Proof. intros n step A B t steps s H. rewrite (mat_tab_ext n A B H). reflexivity. Qed.
+
+Lemma precomputed_equals_named : forall n (step : list (list T) -> nat -> St -> St) steps s0
+    (pwf : pw -> value -> pwparams -> nat -> nat -> T) (callf : nat -> nat -> nat -> T)
+    (kind : pw) (name : string) (params anyparams : value) (Y : nat -> nat -> T),
+  name <> "precomputed" ->
+  (forall i j, i < n -> j < n -> Y i j = pwf kind (VC (CStr name)) (params_of params) i j) ->
+  let named := {| a_kind := kind; a_fn := VC (CStr name); a_params := params |} in
+  let pre := {| a_kind := kind; a_fn := VC (CStr "precomputed"); a_params := anyparams |} in
+  fit_history n step steps s0 pwf callf None (affinity_dispatch named false)
+    = fit_history n step steps s0 pwf callf (Some Y) (affinity_dispatch pre true) /\
+  fit_history n step steps s0 pwf callf None (affinity_dispatch named false) <> None.
+Proof.
+  intros n step steps s0 pwf callf kind name params anyparams Y Hne HY named pre.
+  destruct (affinity_dispatch_spec named false) as (_ & _ & Hn & _).
+  rewrite (Hn name eq_refl Hne). cbn [a_kind a_params named].
+  change (affinity_dispatch pre true) with UseGiven.
+  unfold fit_history. cbn [affinity_matrix option_map]. split; [ | discriminate ].
+  f_equal. symmetry. apply history_congruence. exact HY.
+Qed.
+
+Lemma kauri_precomputed_equals_named : forall n (step : list (list T) -> nat -> St -> St) steps s0
+    (pwf : pw -> value -> pwparams -> nat -> nat -> T) (callf : nat -> nat -> nat -> T)
+    (name : string) (Y : nat -> nat -> T),
+  name <> "precomputed" ->
+  (forall i j, i < n -> j < n -> Y i j = pwf PKernels (VC (CStr name)) PEmpty i j) ->
+  fit_history n step steps s0 pwf callf None (fst (kauri_dispatch (VC (CStr name)) false))
+    = fit_history n step steps s0 pwf callf (Some Y) (fst (kauri_dispatch (VC (CStr "precomputed")) true)) /\
+  fit_history n step steps s0 pwf callf None (fst (kauri_dispatch (VC (CStr name)) false)) <> None.
+Proof.
+  intros n step steps s0 pwf callf name Y Hne HY.
+  destruct (kauri_dispatch_spec (VC (CStr name)) false) as [_ Hn].
+  rewrite (Hn name eq_refl Hne). cbn [fst].
+  change (fst (kauri_dispatch (VC (CStr "precomputed")) true)) with UseGiven.
+  unfold fit_history. cbn [affinity_matrix option_map]. split; [ | discriminate ].
+  f_equal. symmetry. apply history_congruence. exact HY.
+Qed.
+
+(* a missing matrix never trains: the GEMINI route raises *)
+Lemma missing_matrix_is_error : forall n (step : list (list T) -> nat -> St -> St) steps s0 pwf callf kind anyparams,
+  fit_history n step steps s0 pwf callf None
+    (affinity_dispatch {| a_kind := kind; a_fn := VC (CStr "precomputed"); a_params := anyparams |} false) = None.
+Proof. reflexivity. Qed.
+End Congruence.
